@@ -2,7 +2,7 @@
 // comparator counts and argument roles, allocation events, fault injection.
 #include "common.h"
 
-#include "../../repo/src/btree.c"
+#include "btree.c"  // found through -I <repo>/src
 
 static VAlloc    va;
 static ZixBTree* tree;
@@ -122,6 +122,35 @@ put_deref(const ZixBTreeIter* it)
   if (zix_btree_iter_is_end(*it)) printf("END"); else printf("%lu", (unsigned long)VAL(zix_btree_get(*it)));
 }
 
+// "two iterators compare equal exactly when they are at the same position": compare an iterator the library returned
+// with one that reaches the same element by walking from begin, and with its neighbours
+static void
+judge_position(const ZixBTreeIter* it)
+{
+  if (zix_btree_size(tree) > 3000) return;
+  if (zix_btree_iter_is_end(*it)) {
+    if (!zix_btree_iter_equals(*it, zix_btree_end(tree)) || !zix_btree_iter_equals(zix_btree_end(tree), *it)) printf(" SPEC-FAIL:end-iterator-compares-unequal-to-end");
+    return;
+  }
+  const uintptr_t want = VAL(zix_btree_get(*it));
+  ZixBTreeIter prev = zix_btree_end_iter;
+  bool have_prev = false;
+  size_t steps = 0;
+  for (ZixBTreeIter i = zix_btree_begin(tree); !zix_btree_iter_is_end(i) && steps <= zix_btree_size(tree) + 2; zix_btree_iter_increment(&i), ++steps) {
+    if (VAL(zix_btree_get(i)) == want) {
+      if (!zix_btree_iter_equals(i, *it) || !zix_btree_iter_equals(*it, i)) printf(" SPEC-FAIL:iterators-at-the-same-element-compare-unequal");
+      if (have_prev && (zix_btree_iter_equals(prev, *it) || zix_btree_iter_equals(*it, prev))) printf(" SPEC-FAIL:iterators-at-different-elements-compare-equal");
+      ZixBTreeIter nx = i;
+      zix_btree_iter_increment(&nx);
+      if (zix_btree_iter_equals(nx, *it) || zix_btree_iter_equals(*it, nx)) printf(" SPEC-FAIL:iterators-at-different-elements-compare-equal");
+      return;
+    }
+    prev = i;
+    have_prev = true;
+  }
+  printf(" SPEC-FAIL:returned-iterator-is-at-no-element-of-the-tree");
+}
+
 static const char*
 stname(ZixStatus st)
 {
@@ -201,6 +230,7 @@ main(int argc, char** argv)
       printf(" next=");
       put_deref(&next);
       printf(" size=%zu", zix_btree_size(tree));
+      if (st == ZIX_STATUS_SUCCESS) judge_position(&next);
       wb();
       printf(" nextpath=");
       put_path(&next);
@@ -210,6 +240,7 @@ main(int argc, char** argv)
       const ZixStatus st = zix_btree_find(tree, PTR(e), &it);
       printf("st=%s it=", stname(st));
       put_deref(&it);
+      if (st == ZIX_STATUS_SUCCESS) judge_position(&it);
       wb();
       printf(" path=");
       put_path(&it);
@@ -221,6 +252,7 @@ main(int argc, char** argv)
       search_active = 0;
       printf("lb=");
       put_deref(&it);
+      judge_position(&it);
       wb();
       printf(" path=");
       put_path(&it);
